@@ -203,6 +203,7 @@ type vfWireClient struct {
 	handles  map[int]string // slot -> handle
 	slotOf   map[int]int    // request index -> slot it defines
 	window   int
+	dupIDs   int // if > 0, about one request in dupIDs repeats the id of the request before it
 	waitAll  bool // next send must wait until all replies are in
 	closed   bool
 	halfCls  bool // half-close c2s after the last request
@@ -350,7 +351,11 @@ func (w *vfWireClient) sendNext() {
 		return
 	}
 	id := w.nextID
-	w.nextID++
+	if w.dupIDs > 0 && w.sent > 1 && vfMix(w.dataTag^0xd1d, uint64(w.sent))%uint64(w.dupIDs) == 0 {
+		id-- // the same request id as the request before (a client that does not keep its ids distinct)
+	} else {
+		w.nextID++
+	}
 	q := vfOpToReq(op, id, w.handleFor(op.H), w.dataTag)
 	if op.K == "open" || op.K == "opendir" {
 		w.slotOf[i] = op.H
